@@ -1095,30 +1095,36 @@ theorem metadata_good (col k : Chars) (v : JV) (hcol : runS .dflt (col ++ " @> "
     (fun x hx => by subst hx; trivial)
 
 set_option maxRecDepth 8000 in
-theorem balanceOf_good (asset ledger : Chars) (v : JV) :
+theorem runS_balanceTail (op : String) : runS (.strQ false) (balanceTail op) = .dflt := by
+  unfold balanceTail opSql
+  repeat' split
+  all_goals decide
+
+set_option maxRecDepth 8000 in
+theorem balanceOf_good (asset ledger : Chars) (op : String) (v : JV) :
     GoodAt .dflt End
       [.code (balanceHead ++ "asset = ".toList), .lit (quoteBody asset),
        .code " and account_address = accounts.address and ledger = ".toList, .lit (quoteBody ledger),
-       .code balanceTail, argPiece v]
+       .code (balanceTail op), argPiece v]
       [.code (balanceHead ++ "asset = ".toList), .lit (quoteBody (harmlessChars asset)),
        .code " and account_address = accounts.address and ledger = ".toList, .lit (quoteBody ledger),
-       .code balanceTail, argPiece (harmlessJV v)] := by
+       .code (balanceTail op), argPiece (harmlessJV v)] := by
   have a1 := code_lit_good (balanceHead ++ "asset = ".toList) (by decide) (qsafe_quoteBody asset) (qsafe_quoteBody (harmlessChars asset))
   have a2 := code_after_lit_good " and account_address = accounts.address and ledger = ".toList (by decide)
   have a3 := goodAt_lit (qsafe_quoteBody ledger) (qsafe_quoteBody ledger)
-  have a4 := code_after_lit_good balanceTail (by decide)
+  have a4 := code_after_lit_good (balanceTail op) (runS_balanceTail op)
   exact a1.append (a2.append (a3.append (a4.append (arg_good v))))
 
 set_option maxRecDepth 8000 in
-theorem balance_good (ledger : Chars) (v : JV) :
+theorem balance_good (ledger : Chars) (op : String) (v : JV) :
     GoodAt .dflt End
       [.code (balanceHead ++ "account_address = accounts.address and ledger = ".toList), .lit (quoteBody ledger),
-       .code balanceTail, argPiece v]
+       .code (balanceTail op), argPiece v]
       [.code (balanceHead ++ "account_address = accounts.address and ledger = ".toList), .lit (quoteBody ledger),
-       .code balanceTail, argPiece (harmlessJV v)] := by
+       .code (balanceTail op), argPiece (harmlessJV v)] := by
   have a1 := code_lit_good (balanceHead ++ "account_address = accounts.address and ledger = ".toList) (by decide)
     (qsafe_quoteBody ledger) (qsafe_quoteBody ledger)
-  have a4 := code_after_lit_good balanceTail (by decide)
+  have a4 := code_after_lit_good (balanceTail op) (runS_balanceTail op)
   exact a1.append (a4.append (arg_good v))
 
 theorem leaf_good {ep : Endpoint} {pit : Bool} {ledger : Chars} {key : FKey} {op : String} {v : JV} {ps : List Piece}
@@ -1144,10 +1150,10 @@ theorem leaf_good {ep : Endpoint} {pit : Bool} {ledger : Chars} {key : FKey} {op
       · exact metadata_good _ _ _ (by decide)
   -- accounts.balanceOf
   · obtain rfl := Except.ok.inj h
-    exact ⟨_, rfl, balanceOf_good _ _ _⟩
+    exact ⟨_, rfl, balanceOf_good _ _ _ _⟩
   -- accounts.balance
   · obtain rfl := Except.ok.inj h
-    exact ⟨_, rfl, balance_good _ _⟩
+    exact ⟨_, rfl, balance_good _ _ _⟩
   -- transactions.account / source / destination
   · split at h
     · cases h
